@@ -98,8 +98,10 @@ Definition count_res (f : rkind -> bool) (b : test) : nat :=
 (* tests started in a process, in order (a test starts with its setUp phase; decorator-skipped ones are invisible) *)
 Definition started (evs : list oev) : list nat :=
   flat_map (fun e => match e with OPhase t 0 _ => [t] | _ => [] end) evs.
+(* an exception out of a layer's setUp (of any class, NotImplementedError included) or an error out of its tearDown
+   (NotImplementedError from tearDown means "cannot be torn down" and is not an error) *)
 Definition bad_layer_event (e : oev) : bool :=
-  match e with OSetUp _ HRaise | OTearDown _ HRaise => true | _ => false end.
+  match e with OSetUp _ HRaise | OSetUp _ HNotImpl | OTearDown _ HRaise => true | _ => false end.
 End O.
 
 (* ================================================================== *)
@@ -117,8 +119,8 @@ Definition c16_step (c : case) (s : bool * bool) (e : oev) : bool * bool :=
   let '(bad, ok) := s in
   match e with
   | OPhase t 0 _ => (bad || bad_test c t, ok && negb bad)
-  | OSetUp _ HRaise => (true, ok && negb bad)
-  | OSetUp _ _ => (bad, ok && negb bad)
+  | OSetUp _ HOk => (bad, ok && negb bad)
+  | OSetUp _ _ => (true, ok && negb bad)
   | _ => s
   end.
 Definition c16_proc (c : case) (evs : list oev) : bool * bool := fold_left (c16_step c) evs (false, true).
@@ -152,7 +154,7 @@ Definition names_of (c : case) (t : nat) (want_err : bool) : list name :=
 Definition skips_of (c : case) (t : nat) : nat :=
   match behaviour c t with Some b => count_res (fun r => match r with RSkip | RSubSkip => true | _ => false end) b | None => 0 end.
 Definition layer_failures (evs : list oev) : list name :=
-  flat_map (fun e => match e with OSetUp l HRaise => [NLayerSetUp l] | OTearDown l HRaise => [NLayerTearDown l] | _ => [] end) evs.
+  flat_map (fun e => match e with OSetUp l HRaise | OSetUp l HNotImpl => [NLayerSetUp l] | OTearDown l HRaise => [NLayerTearDown l] | _ => [] end) evs.
 (* decorator-skipped tests run no code; they count as run (and skipped) when their layer's tests ran *)
 Definition deco_counted (c : case) (evs : list oev) : nat :=
   length (filter (fun b => t_deco b && existsb (fun t => Nat.eqb (layer_of (w c) t) (t_layer b)) (started evs)) (tests (w c))).
